@@ -1134,6 +1134,12 @@ pub fn wire_session(seed: u64) -> (Vec<(String, String)>, u64) {
         cases.push(("content-length-short", format!("{route}: Content-Length 1000, 400 bytes delivered"), route, partial.clone(), "Content-Length: 1000".into()));
         cases.push(("content-length-short", format!("{route}: Content-Length 1000, 1 byte delivered"), route, b"x".to_vec(), "Content-Length: 1000".into()));
         cases.push(("content-length-short", format!("{route}: Content-Length 100000000, 400 bytes delivered"), route, partial.clone(), "Content-Length: 100000000".into()));
+        // a declared length no body can have (or that no buffer can hold): the declaration alone
+        // must not hurt the server, and since the head is complete and the client waits, the
+        // request must be refused with an answer
+        for n in ["104857601", "1000000000000000", "9223372036854775807", "9223372036854775808", "18446744073709551615"] {
+            cases.push(("content-length-absurd", format!("{route}: Content-Length {n}, 400 bytes delivered"), route, partial.clone(), format!("Content-Length: {n}")));
+        }
         cases.push(("chunked-no-terminating-chunk", format!("{route}: chunked, one complete chunk, no terminating chunk"), route, b"190\r\n".iter().chain(partial.iter()).chain(b"\r\n".iter()).cloned().collect(), "Transfer-Encoding: chunked".into()));
         cases.push(("chunked-chunk-cut-short", format!("{route}: chunked, chunk cut short"), route, b"3e8\r\n".iter().chain(partial.iter()).cloned().collect(), "Transfer-Encoding: chunked".into()));
         cases.push(("chunked-broken-size-line", format!("{route}: chunked, broken chunk-size line after a good chunk"), route, b"190\r\n".iter().chain(partial.iter()).chain(b"\r\nNOT-A-SIZE\r\n".iter()).cloned().collect(), "Transfer-Encoding: chunked".into()));
@@ -1145,6 +1151,9 @@ pub fn wire_session(seed: u64) -> (Vec<(String, String)>, u64) {
             let mut bytes = format!("POST /v1/client/{route}/{v1} HTTP/1.1\r\nHost: {addr}\r\nX-Client-Id: {c}\r\nContent-Type: {ct}\r\n{framing}\r\n\r\n").into_bytes();
             bytes.extend_from_slice(&body);
             let resp = raw_exchange(&addr, &bytes, half_close, read);
+            if resp.is_none() && read && key == "content-length-absurd" {
+                findings.push((format!("wire-no-answer|{key}|{route}"), format!("{label}; {how}: no HTTP answer at all")));
+            }
             if let Some(r) = &resp {
                 if r.status >= 500 {
                     findings.push((format!("wire-5xx|{key}|{route}"), format!("{label}; {how}: answered {}", r.status)));
